@@ -2,7 +2,7 @@
 From Coq Require Import List ZArith NArith Bool Reals Lra.
 Import ListNotations.
 From GS Require Import Num NumR EventLoop Kernel Sim.
-From GS.Proofs Require Import Aux SimP SimP3.
+From GS.Proofs Require Import Aux SimP SimP3 TraceSpec DrawSpec.
 
 Section C10.
 Context {F : Type} (A : ArithOps F) {PS : Type} (cfg : scfg F)
@@ -45,6 +45,16 @@ Proof.
     repeat match goal with |- context [if ?b then _ else _] => destruct b; simpl end; reflexivity.
 Qed.
 
+(** WHOLE RUNS: the number of values taken from the random stream by a run from build() -- any
+    protocol, any bounds, cut anywhere -- is the number of copies attempted by the accepted send and
+    broadcast requests of its trace ([copies]: on a lossy medium one per accepted unicast, one per
+    other node per accepted broadcast; none on a loss-free medium, none for anything else). *)
+Theorem C10_whole_run_draws (c : kcfg F) fuel ps0 :
+  let '(s0, i0) := sim_start A cfg ps0 in
+  let '(s', items, fin) := k_run A (sim_hooks A cfg react) c fuel s0 in
+  s_cursor (k_h s') = attempted A cfg (i0 ++ items).
+Proof. exact (whole_run_draws A cfg react c fuel ps0). Qed.
+
 End C10.
 
 (** Rate 1 (or more) with draws in [0,1): nothing is ever delivered; the set of draws that lose
@@ -59,3 +69,4 @@ Print Assumptions C10_one_copy.
 Print Assumptions C10_broadcast_independent.
 Print Assumptions C10_only_transmissions_draw.
 Print Assumptions C10_loss_threshold.
+Print Assumptions C10_whole_run_draws.
